@@ -312,7 +312,7 @@ fn abort_triage(property: &str, seed: u64, run: u64, how: &str) -> ViolationRec 
         if let Ok(mut hp) = serde_json::from_value::<histsim::HistPlan>(plan.clone()) {
             orig = hp.n_ops();
             let mut budget = 200usize;
-            let mut test = |cand: &histsim::HistPlan| -> bool {
+            let test = |cand: &histsim::HistPlan| -> bool {
                 let _ = write_json(&tmp, &mk(&serde_json::to_value(cand).unwrap(), String::new(), 0, 0, 0));
                 dies_in_subprocess(&tmp)
             };
